@@ -156,6 +156,9 @@ func (lt LiteralType) completeBoolAtPos(ctx context.Context, pos hcl.Pos) []lang
 				value = "true"
 			}
 			prefixLen := pos.Byte - eType.Range().Start.Byte
+			if prefixLen < 0 || prefixLen > len(value) {
+				return []lang.Candidate{}
+			}
 			prefix := value[0:prefixLen]
 			return boolLiteralTypeCandidates(prefix, eType.Range())
 		}
